@@ -775,7 +775,10 @@ def run_relations(c):
         """out ~ kk*base + cc for the background, kk*base for the RMS, to within `delta`."""
         if bn is None or out is None:
             if (bn is None) != (out is None):
-                fails.append((tag, f'{what}: one run raises "all boxes excluded", the other does not ({cfgname})'))
+                if c['sclip'] is not None and tag != 'exact':
+                    rstats['clip_tie_skipped'] = rstats.get('clip_tie_skipped', 0) + 1
+                else:
+                    fails.append((tag, f'{what}: one run raises "all boxes excluded", the other does not ({cfgname})'))
             return
         if not np.array_equal(out[2], bn[2]):
             if c['sclip'] is not None:
